@@ -1300,6 +1300,10 @@ def check_e2e(ctx, pid):
 
             h_, leaves_, names_ = _hier()
             cases, rcases = corpus.cases(pid, [x for x in leaves_ if x not in EXEC_LEVEL])
+            if pid == "C07":
+                # systematic one-shot overrides: every overridable hook x occurrence 0/1 x a falsy and a truthy value
+                oc, orc = corpus.override_cases(pid, OVERRIDABLE, [x for x in leaves_ if x not in EXEC_LEVEL])
+                cases, rcases = cases + oc, rcases + orc
             m = 0
             res = runner.run_cases(rcases)
             metas, err = e2e.three_way(ctx.work, cases, res, "%s_corpus" % pid)
@@ -1460,6 +1464,9 @@ def prove_C05(ctx):
 
 
 def check_C05(ctx):
+    import c05
+
+    c05.check(ctx, VERIF)
     check_e2e(ctx, "C05")
 
 
@@ -1471,13 +1478,23 @@ def check_C07(ctx):
     check_e2e(ctx, "C07")
 
 
+def prove_C16(ctx):
+    ctx.prove(["Properties/C16.v"])
+
+
+def check_C16(ctx):
+    import c16
+
+    c16.check(ctx)
+
+
 # =============================================================================================== registry
 def _todo(ctx):
     pass
 
 
-PROVE = {"C01": prove_C01, "C04": prove_C04, "C05": prove_C05, "C07": prove_C07, "C03": prove_C03, "C06": prove_C06, "C08": prove_C08, "C15": prove_C15, "C02": prove_C02, "C14": prove_C14, "C09": prove_C09, "C10": prove_C10, "C11": prove_C11, "C12": prove_C12, "C13": prove_C13}
-CHECK = {"C01": check_C01, "C04": check_C04, "C05": check_C05, "C07": check_C07, "C03": check_C03, "C06": check_C06, "C08": check_C08, "C15": check_C15, "C02": check_C02, "C14": check_C14, "C09": check_C09, "C10": check_C10, "C11": check_C11, "C12": check_C12, "C13": check_C13}
+PROVE = {"C16": prove_C16, "C01": prove_C01, "C04": prove_C04, "C05": prove_C05, "C07": prove_C07, "C03": prove_C03, "C06": prove_C06, "C08": prove_C08, "C15": prove_C15, "C02": prove_C02, "C14": prove_C14, "C09": prove_C09, "C10": prove_C10, "C11": prove_C11, "C12": prove_C12, "C13": prove_C13}
+CHECK = {"C16": check_C16, "C01": check_C01, "C04": check_C04, "C05": check_C05, "C07": check_C07, "C03": check_C03, "C06": check_C06, "C08": check_C08, "C15": check_C15, "C02": check_C02, "C14": check_C14, "C09": check_C09, "C10": check_C10, "C11": check_C11, "C12": check_C12, "C13": check_C13}
 
 
 def replay(ctx, payload):
